@@ -694,3 +694,41 @@ def r_resize(e, R):
         if not bad:
             R.ok("R-RESIZE", f"{f.short}: shrink wait == (workers > target and not broken) on {len(tab)} rows", e.loc(f, lp.test))
     R.floor("R-RESIZE", 14)
+
+
+# ---------------------------------------------------------------------------
+# R-RESIZE-DRAIN (C09, C10): the resize waits for the pending table to empty, so every entry must leave it
+# ---------------------------------------------------------------------------
+
+def r_resize_drain(e, R):
+    """`_resize` (and through it every get_reusable_executor() call that changes the size) first waits, with no timeout and under the
+    global executor lock, until the table of pending work items is empty.  "The resize terminates" and "the factory returns" therefore
+    rest on a whole-program fact: every entry that enters the table leaves it -- the item of a cancelled future, of a task that failed
+    to serialise on the feeder thread (every error class), of a task whose result arrived.  Those obligations are the ones of
+    R-OWN-RESOLVE / R-DROP-RESOLVES / R-ONCE (C01, C03); they are run for this property when, and only when, such an unbounded wait on
+    the table exists in the reusable executor."""
+    from . import liveness as L
+    from . import routing as Rt
+    waits = []
+    for q, f in e.prog.funcs.items():
+        if f.module.name != "loky.reusable_executor":
+            continue
+        for n in func_nodes(f):
+            if isinstance(n, ast.While) and any(isinstance(x, ast.Attribute) and "pending" in x.attr for x in ast.walk(n.test)) \
+                    and not any(isinstance(x, (ast.Break, ast.Return, ast.Raise)) for s in n.body for x in ast.walk(s)):
+                waits.append((f, n))
+    if not waits:
+        R.ok("R-RESIZE-DRAIN", "the reusable executor has no unbounded wait on the pending table: nothing to require")
+        return
+    for f, n in waits:
+        R.ok("R-RESIZE-DRAIN", f"{f.short}: `while {norm(n.test)[:50]}` has no other exit: termination needs every table entry to leave "
+                               "(obligations of R-OWN-RESOLVE, R-DROP-RESOLVES, R-ONCE follow)", e.loc(f, n))
+    # a sub-rule that declines must not hide what the others find (same policy as Report.run_rules)
+    before, errors = len(R.findings), []
+    for rule in (L.r_own_resolve, L.r_drop_resolves, Rt.r_once):
+        try:
+            rule(e, R)
+        except AnalysisError as err:
+            errors.append(err)
+    if errors and len(R.findings) == before:
+        raise errors[0]
